@@ -134,7 +134,8 @@ def gen_case(rng, prof):
     M = rng.choice(prof.get('Ms', [1, 1, 2, 2, 3]))
     nx = rng.choice(prof.get('nxs', [1, 2, 2, 3]))
     nu = rng.choice(prof.get('nus', [0, 1, 1, 2]))
-    d['states'] = split_sizes(rng, nx)
+    d['states'] = list(rng.choice(prof['state_splits'])) if prof.get('state_splits') else split_sizes(rng, nx)
+    nx = sum(d['states'])
     d['controls'] = split_sizes(rng, nu)
     feat = prof.get('features', {})
 
